@@ -16,6 +16,7 @@ from .qlib import lib, q_from_float, oherm, omul
 
 PROP_ROUTINES = {
     "C01": ["quat_matmat", "quat_hermitian", "quat_matmat.sparse"],
+    "C02": ["embedding_laws.real_expand", "embedding_laws.Realp", "embedding_laws.complex_adjoint"],
     "C03": ["NewtonSchulzPseudoinverse.compute", "HigherOrderNewtonSchulzPseudoinverse.compute"],
     "C04": ["QGMRESSolver.solve", "QGMRESSolver.solve.left_lu"],
     "C05": ["classical_qsvd_full", "classical_qsvd"],
@@ -160,9 +161,44 @@ def build(name, n, rng):
     raise KeyError(name)
 
 
+def _embedding_laws(name, n, rng):
+    """the structure-preserving embeddings at size: multiplicativity, *-preservation, additivity, norm scaling and (real
+    expansion) the exact round trip, on integer matrices so that every law is exact"""
+    u = lib().utils
+    which = name.split(".")[1]
+    A = rng.integers(-3, 4, (n, n + 1, 4)).astype(float)
+    B = rng.integers(-3, 4, (n + 1, n - 1, 4)).astype(float)
+    A2 = rng.integers(-3, 4, (n, n + 1, 4)).astype(float)
+
+    def emb(F_):
+        if which == "real_expand":
+            return np.asarray(u.real_expand(q_from_float(F_)))
+        if which == "Realp":
+            return np.asarray(u.Realp(*[np.ascontiguousarray(F_[..., c]) for c in range(4)]))
+        return np.asarray(u.quaternion_to_complex_adjoint(q_from_float(F_)))
+    o = J.Out("C02", which, "size-sweep", {"shape": [n, n + 1], "size_sweep": True})
+    if which == "complex_adjoint":
+        A, B, A2 = A[:, :n], rng.integers(-3, 4, (n, n, 4)).astype(float), A2[:, :n]      # the adjoint is documented for square input
+    EA, EB, EA2 = emb(A), emb(B), emb(A2)
+    o.flag("Multiplicative", bool(np.array_equal(EA @ EB, emb(omul(A, B)))))
+    o.flag("Additive", bool(np.array_equal(EA + EA2, emb(A + A2))))
+    o.flag("StarPreserving", bool(np.array_equal(emb(oherm(A)), np.conj(EA).T)))
+    fro2 = float(np.sum(A * A))
+    o.flag("NormScaling", bool(abs(float(np.sum(np.abs(EA) ** 2)) - (4.0 if which != "complex_adjoint" else 2.0) * fro2) <= 1e-9 * max(fro2, 1.0)))
+    if which == "real_expand":
+        back = np.asarray(quaternion.as_float_array(u.real_contract(EA, A.shape[0], A.shape[1])))
+        o.flag("RoundTrip", bool(np.array_equal(back, A)))
+    return [o]
+
+
 def _job(args):
     name, n, seed = args
     rng = np.random.default_rng(seed)
+    if name.startswith("embedding_laws."):
+        recs = _embedding_laws(name, n, rng)
+        return [(o.prop, o.fn, o.cls, dict(o.detail, routine=name, n=n), o.events) for o in recs]
+    if name.startswith("c14:"):
+        return _c14_job(name[4:], n, seed)
     jn, fn, a, kw = build(name, n, rng)
     judge = {path.split(".")[-1] if "." not in path else path: j for _, path, j in J.REGISTRY}
     jf = judge.get(jn) or judge.get(jn.split(".")[-1]) or {p.split(".")[-1]: j for _, p, j in J.REGISTRY}[jn.split(".")[-1]]
@@ -175,15 +211,50 @@ def _job(args):
     return [(o.prop, o.fn, o.cls, dict(o.detail, size_sweep=True, routine=name, n=n), o.events) for o in recs]
 
 
+def _c14_job(name, n, seed):
+    """C14 at size: arguments bit-identical after the call, and a repeated call (same global seed) repeats the result"""
+    from .props.c14 import snap_value  # noqa: F401  (imported for its side-effect-free helpers)
+    rng = np.random.default_rng(seed)
+    jn, fn, a, kw = build(name, n, rng)
+    pre = [J.arg_digest(x) for x in a]
+    outs = []
+    for rep in range(2):
+        np.random.seed(seed % (2 ** 31))
+        a_run = a if rep == 0 else a          # the same objects again
+        with contextlib.redirect_stdout(io.StringIO()):
+            outs.append(fn(*a_run, **kw))
+    post = [J.arg_digest(x) for x in a]
+    inplace = name.split(".")[0] in J.INPLACE_BY_DESIGN
+
+    def dig(o_):
+        if isinstance(o_, (tuple, list)):
+            return [dig(x) for x in o_]
+        if isinstance(o_, dict):
+            return {k: dig(v) for k, v in sorted(o_.items()) if "time" not in str(k)}
+        d_ = J.arg_digest(o_)
+        return d_ if d_ is not None else repr(o_)[:80]
+    o = J.Out("C14", name, "size-sweep", {"n": n, "size_sweep": True})
+    if not inplace:
+        o.flag("ArgumentsUnchanged", bool(all(p is None or p == q for p, q in zip(pre, post))))
+        if "HigherOrder" in name:
+            outs = [o_[:2] for o_ in outs]        # the third return value is a list of wall-clock timings
+        o.flag("RepeatRepeatsResult", bool(dig(outs[0]) == dig(outs[1])))
+    return [(o.prop, o.fn, o.cls, o.detail, o.events)]
+
+
 def stage(ctx, quick=False):
     names = PROP_ROUTINES.get(ctx.pid)
+    if ctx.pid == "C14":
+        names = ["c14:" + nm for p_, nms in sorted(PROP_ROUTINES.items()) for nm in nms if not nm.startswith("embedding_laws")]
     if not names:
         return
     sizes = [8, 13, 34, 67] if quick else [8, 13, 21, 34, 67, 130]
+    if ctx.pid == "C14":
+        sizes = [34, 67] if quick else [13, 34, 67, 130]
     jobs = []
     for nm in names:
         for n in sizes:
-            if n > CAP.get(nm, 34):
+            if n > CAP.get(nm.replace("c14:", ""), 1000):
                 continue
             for rep in range(1 if quick else 2):
                 jobs.append((nm, n, ctx.seed * 1013 + 17 * n + rep + len(jobs)))
